@@ -374,7 +374,7 @@ fn corrupt_move(rng: &mut Rng, p: &Pos) -> (String, &'static str) {
 
 pub fn run_c08(ctx: &Ctx) -> Result<(), String> {
     let seeds: Vec<String> = corpus::all_seeds()?;
-    let n = if ctx.tier == "thorough" { 30_000 } else { 1_200 };
+    let n = if ctx.tier == "thorough" { 60_000 } else { 5_000 };
     pool(ctx, n, |ctx, idx| c08_session(ctx, idx, &seeds));
     Ok(())
 }
@@ -731,8 +731,8 @@ pub fn run_c09(ctx: &Ctx, prop: &str) -> Result<(), String> {
     let n = match (prop, ctx.tier.as_str()) {
         ("C09", "thorough") => 12_000,
         ("C09", _) => 600,
-        (_, "thorough") => 10_000,
-        _ => 400,
+        (_, "thorough") => 20_000,
+        _ => 1_500,
     };
     let p = prop.to_string();
     pool(ctx, n, |ctx, idx| go_session(ctx, idx, &seeds, &p));
